@@ -1158,3 +1158,133 @@ pub fn observation(r: &Record) -> String {
     }
     s
 }
+
+// ------------------------------------------------------------------------------------------
+// CID (C13, end to end)
+// ------------------------------------------------------------------------------------------
+
+pub fn mon_cid(scn: &Scenario, r: &Record, out: &mut V) {
+    for ep in [CLIENT, SERVER] {
+        // the peer's limit as received by ep
+        let limit = received_tp(scn, r, ep).map(|t| t.active_connection_id_limit).unwrap_or(2);
+        // issued by ep: seq -> (cid, token); seq 0 is the handshake id
+        let mut issued: BTreeMap<u64, (Vec<u8>, [u8; 16])> = BTreeMap::new();
+        let mut retired_by_peer: BTreeSet<u64> = BTreeSet::new();
+        let mut next_seq = 1u64;
+        // ids issued to ep by the peer (from what ep processed)
+        let mut peer_issued: BTreeMap<u64, Vec<u8>> = BTreeMap::new();
+        for (_t, _, _, item) in timeline(r, ep) {
+            match item {
+                Item::Rx(p) => {
+                    for f in &p.frames {
+                        match f {
+                            F::RetireConnectionId(seq) => {
+                                retired_by_peer.insert(*seq);
+                            }
+                            F::NewConnectionId { seq, cid, .. } => {
+                                peer_issued.insert(*seq, cid.clone());
+                            }
+                            _ => {}
+                        }
+                    }
+                }
+                Item::Tx(p) => {
+                    for f in &p.frames {
+                        match f {
+                            F::NewConnectionId { seq, retire_prior_to, cid, token } => {
+                                if retire_prior_to > seq {
+                                    v(out, "cid.retire_prior_to", format!("{} sent NEW_CONNECTION_ID seq {} with retire_prior_to {}", epn(ep), seq, retire_prior_to));
+                                }
+                                match issued.get(seq) {
+                                    Some((c, tk)) => {
+                                        if c != cid || tk != token {
+                                            v(out, "cid.seq_reuse", format!("{} re-sent sequence number {} with a different connection id or token", epn(ep), seq));
+                                        }
+                                    }
+                                    None => {
+                                        if *seq != next_seq {
+                                            v(out, "cid.seq_consecutive", format!("{} issued sequence number {} when {} was next", epn(ep), seq, next_seq));
+                                        }
+                                        next_seq = seq + 1;
+                                        for (s2, (c, tk)) in &issued {
+                                            if c == cid {
+                                                v(out, "cid.id_distinct", format!("{} issued the same connection id for sequence numbers {} and {}", epn(ep), s2, seq));
+                                            }
+                                            if tk == token {
+                                                v(out, "cid.token_distinct", format!("{} issued the same stateless reset token for sequence numbers {} and {}", epn(ep), s2, seq));
+                                            }
+                                        }
+                                        issued.insert(*seq, (cid.clone(), *token));
+                                        // active ids: issued, not retired by the peer, not being retired by this very frame
+                                        let active = (0..=*seq).filter(|s| *s >= *retire_prior_to && !retired_by_peer.contains(s)).count() as u64;
+                                        if active > limit {
+                                            v(out, "cid.limit", format!("{} issued sequence number {} (retire_prior_to {}) leaving {} unretired connection ids with a peer limit of {}", epn(ep), seq, retire_prior_to, active, limit));
+                                        }
+                                    }
+                                }
+                            }
+                            F::RetireConnectionId(seq) => {
+                                if *seq != 0 && !peer_issued.contains_key(seq) {
+                                    v(out, "cid.retire_unissued", format!("{} retired sequence number {} which the peer never issued", epn(ep), seq));
+                                }
+                            }
+                            _ => {}
+                        }
+                    }
+                }
+            }
+        }
+    }
+    // RETIRE_CONNECTION_ID must not travel in a packet addressed with the id it retires. The destination
+    // connection id of a short-header packet is never protected (bytes 1..17 with the 16-byte ids used
+    // here); every 1-RTT packet travels in its own datagram, in order, so the k-th 1-RTT packet an
+    // endpoint wrote is the k-th short-header datagram it sent.
+    for ep in [CLIENT, SERVER] {
+        let peer = other(ep);
+        let mut peer_cids: BTreeMap<u64, Vec<u8>> = BTreeMap::new();
+        for p in r.tx.iter().filter(|p| p.ep == peer) {
+            for f in &p.frames {
+                if let F::NewConnectionId { seq, cid, .. } = f {
+                    peer_cids.insert(*seq, cid.clone());
+                }
+            }
+        }
+        let shorts: Vec<&Dgram> = r.dgrams.iter().filter(|d| d.from == ep && d.payload.len() > 17 && wire::datagram_packet_kinds(&d.payload).last() == Some(&Kind::Short)).collect();
+        let pkts: Vec<&Pkt> = r.tx.iter().filter(|p| p.ep == ep && p.space == 2).collect();
+        if shorts.len() != pkts.len() {
+            // (0-RTT never used here) a mismatch means the order mapping cannot be trusted: skip rather than guess
+            continue;
+        }
+        for (d, p) in shorts.iter().zip(pkts.iter()) {
+            // only plain short-header datagrams (no coalesced long header in front)
+            if d.payload[0] & 0x80 != 0 {
+                continue;
+            }
+            let dcid = &d.payload[1..17];
+            for f in &p.frames {
+                if let F::RetireConnectionId(seq) = f {
+                    if peer_cids.get(seq).map_or(false, |c| c.as_slice() == dcid) {
+                        v(out, "cid.retire_own_dcid", format!("{} sent RETIRE_CONNECTION_ID({}) in packet {} (datagram #{}) whose destination connection id is that very id", epn(ep), seq, p.pn, d.idx));
+                    }
+                }
+            }
+        }
+    }
+    // routing: genuine datagrams are never answered with a stateless reset / dropped as unroutable
+    let closed_at = |ep: u8| r.events.iter().filter(|e| e.ep == ep && matches!(e.ev, Ev::Closed { .. })).map(|e| e.t).min().unwrap_or(u64::MAX);
+    for e in &r.events {
+        // once an endpoint's connection is closed there is nothing left to route to
+        if e.t >= closed_at(e.ep) {
+            continue;
+        }
+        match &e.ev {
+            Ev::EndpointPacketSent { kind } if kind == "StatelessReset" => {
+                v(out, "cid.stateless_reset_for_genuine", format!("{} answered a genuine datagram with a stateless reset at {} us", epn(e.ep), e.t));
+            }
+            Ev::EndpointDatagramDropped { reason, len } if reason.contains("Unknown") || reason.contains("UnknownDestination") => {
+                v(out, "cid.genuine_datagram_unroutable", format!("{} dropped a genuine {}-byte datagram as unroutable ({}) at {} us", epn(e.ep), len, reason, e.t));
+            }
+            _ => {}
+        }
+    }
+}
